@@ -104,7 +104,7 @@ func main() {
 		return
 	}
 	if id == "--warm" {
-		for _, fl := range []string{"plain", "shim", "cmd"} {
+		for _, fl := range []string{"plain", "shimrace", "cmd"} {
 			scratch, err := os.MkdirTemp("/var/tmp", "vcheck-warm-")
 			if err != nil {
 				fatal(2, "scratch: %v", err)
@@ -170,6 +170,11 @@ func main() {
 	}
 	cmd := exec.Command(bin, args...)
 	cmd.Env = append(env(), "VERIF_SCRATCH="+scratch, "VERIF_REPO="+repoDir)
+	if flavour == "shimrace" {
+		if _, err := os.Stat(filepath.Join(scratch, "hrace")); err == nil {
+			cmd.Env = append(cmd.Env, "VERIF_RACEBIN="+filepath.Join(scratch, "hrace"))
+		}
+	}
 	if flavour == "cmd" {
 		cmd.Env = append(cmd.Env, "VERIF_JP5="+filepath.Join(scratch, "jp5"), "VERIF_JP4="+filepath.Join(scratch, "jp4"))
 	}
@@ -193,6 +198,9 @@ func main() {
 			Samples: []interface{}{string(what)}, Rule: "hang detected before the exploration finished",
 			Violations: []violation{{Property: id, Clause: "hang", Key: id + ":hang", Engine: "watchdog",
 				Detail: "a library call did not return within the watchdog limit", Case: json.RawMessage(jsonOr(what))}}, NViol: 1}
+	} else if kind := fatalKind(stderr.String()); code != 0 && kind != "" {
+		// the library crashed the process (not recoverable): find the case
+		rep = attributeCrash(id, *tier, bin, scratch, args, kind, stderr.String())
 	} else if code != 0 {
 		fmt.Fprintf(os.Stderr, "vcheck: harness exited with status %d (this is not a verdict):\n%s\n", code, tail(stderr.String(), 60))
 		exit(2)
@@ -333,4 +341,83 @@ func matchFinding(fs []finding, v violation) int {
 		return i
 	}
 	return -1
+}
+
+// fatalKind recognises crashes of the Go runtime that recover() cannot stop.
+func fatalKind(stderr string) string {
+	switch {
+	case strings.Contains(stderr, "goroutine stack exceeds") || strings.Contains(stderr, "fatal error: stack overflow"):
+		return "stack-overflow"
+	case strings.Contains(stderr, "fatal error: runtime: out of memory") || strings.Contains(stderr, "cannot allocate memory"):
+		return "out-of-memory"
+	case strings.Contains(stderr, "fatal error: concurrent map"):
+		return "concurrent-map-access"
+	case strings.Contains(stderr, "fatal error: all goroutines are asleep"):
+		return "deadlock"
+	}
+	return ""
+}
+
+// attributeCrash re-runs the harness with case tracing on, then replays the last
+// traced cases one by one in fresh processes until one reproduces the crash.
+func attributeCrash(id, tier, bin, scratch string, args []string, kind, firstErr string) report {
+	tracePath := filepath.Join(scratch, "trace.jsonl")
+	os.Remove(tracePath)
+	cmd := exec.Command(bin, args...)
+	cmd.Env = append(env(), "VERIF_SCRATCH="+scratch, "VERIF_REPO="+repoDir, "VERIF_TRACE="+tracePath)
+	cmd.Dir = scratch
+	cmd.Run()
+	tb, _ := os.ReadFile(tracePath)
+	lines := strings.Split(strings.TrimSpace(string(tb)), "\n")
+	// each line is "<worker id>\t<case>": a worker that crashed never reports again, so
+	// the culprit is the LAST case of some worker
+	seen := map[string]bool{}
+	var cand []string
+	for i := len(lines) - 1; i >= 0; i-- {
+		parts := strings.SplitN(lines[i], "\t", 2)
+		if len(parts) != 2 || seen[parts[0]] {
+			continue
+		}
+		seen[parts[0]] = true
+		cand = append(cand, parts[1])
+	}
+	msg := firstErr
+	if i := strings.Index(msg, "fatal error"); i >= 0 {
+		msg = msg[i:]
+	} else if i := strings.Index(msg, "runtime: goroutine stack exceeds"); i >= 0 {
+		msg = msg[i:]
+	}
+	msg = trunc(msg, 1200)
+	v := violation{Property: id, Clause: "crash", Key: id + ":crash:" + kind, Engine: "driver",
+		Detail: "the library crashed the whole process (" + kind + "), which no caller can recover from: " + msg}
+	found := false
+	for _, l := range cand {
+		if !json.Valid([]byte(l)) {
+			continue
+		}
+		f := filepath.Join(scratch, "crashcase.json")
+		b, _ := json.Marshal(map[string]interface{}{"property": id, "case": json.RawMessage(l)})
+		os.WriteFile(f, b, 0o644)
+		rc := exec.Command(bin, "replay", "--prop", id, "--file", f)
+		rc.Env = append(env(), "VERIF_SCRATCH="+scratch)
+		out, err := rc.CombinedOutput()
+		if err != nil && fatalKind(string(out)) != "" {
+			v.Case = json.RawMessage(l)
+			found = true
+			break
+		}
+	}
+	if !found {
+		n := len(cand)
+		if n > 16 {
+			n = 16
+		}
+		q, _ := json.Marshal(map[string]interface{}{"unattributed": true, "last_cases_in_flight": cand[:n]})
+		v.Case = q
+		v.Detail += " (the culprit is among the cases listed; single-case replay did not reproduce it)"
+	}
+	return report{Property: id, Engine: "driver/crash-attribution", Tier: tier, States: 1, Trans: int64(len(lines)), Validated: int64(len(lines)),
+		Evals: int64(len(lines)), Nontrivial: 2, Samples: []interface{}{string(v.Case)},
+		Rule:       "the exploration was cut short by an unrecoverable crash of the library; every case is traced before it runs and the last traced cases are replayed singly to attribute the crash",
+		Violations: []violation{v}, NViol: 1, Caps: []string{"exploration aborted by a process crash in the code under test"}}
 }
